@@ -95,6 +95,9 @@ Pre(s, op, a) ==
     [] op = "reduce" -> s.RS.kind = "parallel"
     \* copying a reaction set, optionally re-based (a.basis: "none", "wt", "mol"): a new set, the original untouched
     [] op = "set_copy" -> s.RS.kind \in {"parallel", "series"}
+    \* the reaction of slot x rebuilt as a phase-tagged reaction (all chemicals in the gas phase) and copied / re-based / scaled /
+    \* combined: the driver reports whether the tagged operand stayed as it was (a.how names the operation)
+    [] op = "tagged_probe" -> a.x \in Slots /\ IsRxn(s.Rx[a.x])
     \* the same reaction re-based to weight (its molar meaning is unchanged)
     [] op \in {"to_wt", "to_mol"} -> {a.d, a.x} \subseteq Slots /\ IsRxn(s.Rx[a.x])
     [] OTHER -> FALSE
@@ -125,7 +128,7 @@ Post(s, op, a) ==
     [] op = "item_imul" -> [s EXCEPT !.RS.items[a.i].X = RMul(@, a.q)]
     [] op = "item_idiv" -> [s EXCEPT !.RS.items[a.i].X = RMul(@, RInv(a.q))]
     [] op = "set_assign_X" -> [s EXCEPT !.RS.items = [i \in DOMAIN s.RS.items |-> [s.RS.items[i] EXCEPT !.X = a.Xs[i]]]]
-    [] op \in {"reduce", "set_copy"} -> s
+    [] op \in {"reduce", "set_copy", "tagged_probe"} -> s
     [] op \in {"to_wt", "to_mol"} -> [s EXCEPT !.Rx[a.d] = s.Rx[a.x]]
 
 ---------------------------------------------------------------------------
@@ -163,6 +166,7 @@ Judge(s, e) ==
           ELSE IF u.Rx # s.Rx \/ u.RS # s.RS THEN "reaction_changed_by_application"
           ELSE "ok"
      ELSE IF e.obs.exc # None THEN "exception"
+     ELSE IF ~e.obs.tagged_ok THEN "tagged_operand_changed"
      ELSE IF e.obs.rebased THEN "operand_rebased_in_place"          \* a reaction object still held by a slot changed its basis
      ELSE IF ~e.obs.held_agree THEN "set_item_out_of_sync"       \* items obtained earlier and the set disagree on a conversion
      ELSE IF e.op = "reduce" /\ e.obs.reduced_m # ApplyParallel(s.RS.items, s.m) THEN "reduce.not_equivalent"
